@@ -202,6 +202,10 @@ fn mutate(g: &G, op: u8, s: u64) -> G {
     G::Polygon(polys.into_iter().next().unwrap())
 }
 
+pub fn mutate_pub(g: &G, op: u8, s: u64) -> G {
+    mutate(g, op, s)
+}
+
 fn role_idx(r: &RingRole) -> usize {
     match r {
         RingRole::Exterior => 0,
